@@ -159,6 +159,19 @@ def retag_rule(ctx, crate):
                            "pass %s: no writes to the token vector recognised" % p, p):
             continue
         found = set()
+        # a pass that gives a token a new tag chosen from its (external) text: the tag may become empty
+        writes_external = any(flow.backward(b, (strip_sites(tx)[2][1] if kd == "insert" else tx),
+                                            taint.source_pred(crate, pred)) is not None
+                              for bb_, kd, tx, tg in writes if kd != "tag-assign" for cname, pred in CLASSES)
+        for bb, kind, text, tag in writes:
+            if kind != "tag-assign":
+                continue
+            empty, tdesc = tag_may_be_empty(b, bb, "insert", text, crate)
+            if empty and writes_external:
+                ctx.ob("R13-2", p, "a token holding external text is not re-tagged with a possibly empty tag (%s)" % tdesc, False,
+                       key="R13-2|%s|retag|%s" % (p, tdesc), where=b.loc(bb), crate=crate.kind,
+                       detail="the operator recognisers act on every token whose tag is empty: output such as `|`, `a>b`, `x&` "
+                              "becomes syntax")
         for bb, kind, text, tag in writes:
             if kind == "tag-assign":
                 continue
